@@ -42,12 +42,13 @@ import (
 
 // Rec is one request seen by the origin set.
 type Rec struct {
-	Scheme string `json:"scheme"` // http | https (https = the request arrived inside a TLS session)
-	Host   string `json:"host"`   // hostname as sent in the Host header (case preserved, port stripped)
-	Port   string `json:"port"`   // port that was dialled / CONNECTed / named in the absolute URI (defaults filled in by net/http)
-	Path   string `json:"path"`   // request path as sent on the wire
-	Auth   string `json:"auth"`   // Authorization header ("" = absent)
-	Via    string `json:"via"`    // pipe | proxy
+	Scheme string `json:"scheme"`         // http | https (https = the request arrived inside a TLS session)
+	Host   string `json:"host"`           // hostname as sent in the Host header (case preserved, port stripped)
+	Port   string `json:"port"`           // port that was dialled / CONNECTed / named in the absolute URI (defaults filled in by net/http)
+	Path   string `json:"path"`           // request path as sent on the wire
+	Auth   string `json:"auth"`           // Authorization header ("" = absent)
+	Via    string `json:"via"`            // pipe | proxy
+	Call   int    `json:"call,omitempty"` // getter-history: 1-based number of the Get call that issued the request
 }
 
 func (r Rec) String() string {
